@@ -51,13 +51,14 @@ func main() {
 
 func driver() {
 	run := evid.New("C17", "exploration")
-	run.Rule = "Part A: credential maps over the protocol's attribute names (protocol, host, path, username, password, wwwauth[], state[], authtype, credential, capability[], password_expiry_utc, oauth_refresh_token, ephemeral, continue); one value of one key carries a token (forbidden: LF, NUL, CRLF, CR; harmless look-alikes: TAB, VT, FF, DEL, ESC, BS, SOH, U+2028/2029/0085, raw 0x85/0xff, literal %0a/%0D/%00, backslash-n, '=', space, 'host=evil' text, UTF-8; whole-value shapes empty/long(4k..200k)/random bytes/blank edges) at position start/middle/end/alone; key x token x position are enumerated from the case index, operation (fill/approve/reject), family (direct map | URL+headers+state through GetCredentialHelper/FillCreds), credential.protectProtocol mode (unset,true,false,url-scoped false, other-url false, global false + url true), other keys/values and multi-value counts are PRNG-drawn. Part B: `git lfs locks` of the real binary, remote URL with percent-encoded token in userinfo/host/path/password, raw WWW-Authenticate/Lfs-Authenticate bytes from a TCP server, multistage helper answers (state[]) with CR/NUL/CRLF line ends. Sequence family (seq.go): ONE CredentialHelperContext reused for 2-4 look-ups over 4 hosts with credential.<url>.protectProtocol per host in {unset,true,false} plus the global setting; each exchange judged by the setting of ITS url; coordinates: style, op, protection for the url, whether an earlier url of the context had protection off (prior), fresh wrapper | wrapper used after another GetCredentialHelper (stale-wrapper, last step only) | control byte in the URL path with a URL-scoped setting that differs from the global one; the skip list after a refused Fill and the credential cache are modelled, never flagged. Part B also: `git lfs smudge` whose batch answer points at another host with the token in the href's userinfo/path, per-host protectProtocol (e2e_href.go), and a redirect shape (approve of the first URL's credentials after a look-up for a second URL). class = (part, family|location, op, protect mode, key, token, position)."
+	run.Rule = "Part A: credential maps over the protocol's attribute names (protocol, host, path, username, password, wwwauth[], state[], authtype, credential, capability[], password_expiry_utc, oauth_refresh_token, ephemeral, continue); one value of one key carries a token (forbidden: LF, NUL, CRLF, CR; harmless look-alikes: TAB, VT, FF, DEL, ESC, BS, SOH, U+2028/2029/0085, raw 0x85/0xff, literal %0a/%0D/%00, backslash-n, '=', space, 'host=evil' text, UTF-8; whole-value shapes empty/long(4k..200k)/random bytes/blank edges) at position start/middle/end/alone; key x token x position are enumerated from the case index, operation (fill/approve/reject), family (direct map | URL+headers+state through GetCredentialHelper/FillCreds), credential.protectProtocol mode (unset,true,false,url-scoped false, other-url false, global false + url true), other keys/values and multi-value counts are PRNG-drawn. Part B: `git lfs locks` of the real binary, remote URL with percent-encoded token in userinfo/host/path/password, raw WWW-Authenticate/Lfs-Authenticate bytes from a TCP server, multistage helper answers (state[]) with CR/NUL/CRLF line ends. Sequence family (seq.go): ONE CredentialHelperContext reused for 2-4 look-ups over 4 hosts with credential.<url>.protectProtocol per host in {unset,true,false} plus the global setting; each exchange judged by the setting of ITS url; coordinates: style, op, protection for the url, whether an earlier url of the context had protection off (prior), fresh wrapper | wrapper used after another GetCredentialHelper (stale-wrapper, last step only) | control byte in the URL path with a URL-scoped setting that differs from the global one; the skip list after a refused Fill and the credential cache are modelled, never flagged. Part B also: `git lfs smudge` whose batch answer points at another host with the token in the href's userinfo/path, per-host protectProtocol (e2e_href.go), and a redirect shape (approve of the first URL's credentials after a look-up for a second URL). Askpass family (askpass.go, e2e_askpass.go): askpass program {none, GIT_ASKPASS, core.askpass, SSH_ASKPASS} (enumerated) x credential.useHttpPath on/off (enumerated) x protectProtocol scope shape (enumerated: which of global | scheme://host | scheme://host/<path prefix> | scheme://host/<full path> decides, its value, and the next broader entry holding the opposite value or the default; plus non-matching distractor entries) x key carrying the token {username from the URL, password (approve/reject after the fill), path, wwwauth[], state[]} (enumerated) x token (cr weighted, lf, nul, crlf, tab, none) x how `git credential` is reached although an askpass program is set (credential.helper at global/host/path scope displaces it | the program cannot be run | a real script answers: no exchange demanded); in process one context per case with fill then optional approve/reject on the same wrapper; end to end `git lfs locks` with a real askpass script that prints a value and logs its invocations, token in the URL user name or CRLF line ends in the helper answer. Expected protection = most specific matching credential.<url>.protectProtocol per Git urlmatch rules (driver-side resolver). class = (part, family|location, op, protect mode, key, token, position)."
 	run.Assumptions = []string{
 		"the `git` shim first on PATH sees exactly what git-lfs passes to `git credential` (git-lfs resolves `git` through PATH: subprocess.LookPath)",
 		"protocol protection is on when credential.protectProtocol is unset or true for the URL (creds.go GetCredentialHelper; docs of Git's credential.protectProtocol)",
 		"weakest reading of 'exactly the pairs supplied': multiset equality of LF-terminated key=value lines in any order, preceded/accompanied by the two capability lines git-lfs documents sending (capability[]=authtype, capability[]=state); one optional terminating blank line tolerated",
 		"protection 'is enabled' for an exchange means: enabled for the URL the credential wrapper was obtained for (URL-scoped credential.<url>.protectProtocol wins over the global one, default on), whatever other URLs the same process looked up before or in between",
 		"keys are the fixed attribute names of the protocol; only values are hostile (the statement quantifies over values)",
+		"askpass family: which credential.<url>.protectProtocol applies is decided by the URL alone (Git applies credential.<url>.* before it drops the path of an http(s) URL for useHttpPath=false), not by which credential helpers (askpass program, credential.helper) take part; entries are generated without user part and wildcards; a URL path with a control byte is labelled with the recorded trigger urlscoped-setting-lost-path-cr",
 		"end to end: what Go's HTTP client delivers is what is judged; a header value is derivable if the driver's own RFC 7230 field parser yields it from the raw bytes sent",
 		"return value of a passed-through call (e.g. parsing of the helper's answer) is not judged",
 	}
@@ -84,13 +85,14 @@ func driver() {
 	nE2E := run.N(56, 1_500)
 	run.SetMinEvaluations(nPass + nRefuse)
 
-	partA(run, self, shimDir, nPass, nRefuse, nSeq)
-	partB(run, shimDir, nE2E, run.N(12, 300))
+	nAsk := run.N(2_400, 60_000) // askpass program x protectProtocol scope depths x useHttpPath (askpass.go)
+	partA(run, self, shimDir, nPass, nRefuse, nSeq, nAsk)
+	partB(run, shimDir, nE2E, run.N(12, 300), run.N(16, 400))
 	sbx.RemoveBase() // Finish exits the process: deferred calls do not run
 	run.Finish()
 }
 
-func partA(run *evid.Run, self, shimDir string, nPass, nRefuse, nSeq int) {
+func partA(run *evid.Run, self, shimDir string, nPass, nRefuse, nSeq, nAsk int) {
 	W := runtime.NumCPU()
 	if W > 32 {
 		W = 32
@@ -113,7 +115,7 @@ func partA(run *evid.Run, self, shimDir string, nPass, nRefuse, nSeq int) {
 			outfile := filepath.Join(root, "out.json")
 			ctx, cancel := context.WithTimeout(context.Background(), 40*time.Minute) // watchdog only
 			defer cancel()
-			cmd := exec.CommandContext(ctx, self, "__worker", strconv.Itoa(w), strconv.Itoa(W), strconv.FormatInt(run.Seed, 10), strconv.Itoa(nPass), strconv.Itoa(nRefuse), logdir, outfile, strconv.Itoa(nSeq))
+			cmd := exec.CommandContext(ctx, self, "__worker", strconv.Itoa(w), strconv.Itoa(W), strconv.FormatInt(run.Seed, 10), strconv.Itoa(nPass), strconv.Itoa(nRefuse), logdir, outfile, strconv.Itoa(nSeq), strconv.Itoa(nAsk))
 			cmd.Dir = cwd
 			cmd.Env = []string{"HOME=" + home, "XDG_CONFIG_HOME=" + filepath.Join(root, "xdg"), "TMPDIR=" + root, "PATH=" + shimDir + ":/usr/bin:/bin",
 				"GIT_CONFIG_NOSYSTEM=1", "GIT_CEILING_DIRECTORIES=" + root, "GIT_TERMINAL_PROMPT=0", "LANG=C", "LC_ALL=C",
@@ -206,7 +208,7 @@ func partA(run *evid.Run, self, shimDir string, nPass, nRefuse, nSeq int) {
 	run.Set("part_a_violating_cases_reported_by_workers", len(vs))
 }
 
-func partB(run *evid.Run, shimDir string, n, nHref int) {
+func partB(run *evid.Run, shimDir string, n, nHref, nAskE int) {
 	if _, err := os.Stat(filepath.Join(sbx.BinDir, "git-lfs")); err != nil {
 		sbx.RemoveBase()
 		run.Infra("git-lfs binary missing in %s", sbx.BinDir)
@@ -226,6 +228,10 @@ func partB(run *evid.Run, shimDir string, n, nHref int) {
 							run.Inconclusive(fmt.Sprintf("e2e case %d: harness panic: %v", i, x))
 						}
 					}()
+					if i >= n+nHref+2 {
+						runCaseK(sh, genCaseK(run.Seed, i-n-nHref-2))
+						return
+					}
 					if i >= n+nHref {
 						runCaseR(sh, i-n-nHref)
 						return
@@ -239,7 +245,7 @@ func partB(run *evid.Run, shimDir string, n, nHref int) {
 			}
 		}()
 	}
-	for i := 0; i < n+nHref+2; i++ {
+	for i := 0; i < n+nHref+2+nAskE; i++ {
 		jobs <- i
 	}
 	close(jobs)
